@@ -148,6 +148,13 @@ end
 def textBody (esc : Bool) (s : Str) : Str :=
   if esc then (if s = [] then [' '] else Html.escapeText s) else s
 
+/-- what `HtmlElement::to_html_with_buf` does with what the children printed: for `<textarea>` (an escapable raw
+text element; `ESCAPE_CHILDREN = false`, so the children print no markers and no escapes) the text is passed through
+`html_escape::encode_text`, and a leading line feed is doubled (the repairs `fix: escape the text children of
+<textarea>` / `fix: keep a leading line feed of a <textarea> value`; C06's `Html.textareaBody` with both repairs on) -/
+def kidsBody (tag : String) (raw : Str) : Str :=
+  if tag.toList = Html.tTextarea then Html.textareaBody true true raw else raw
+
 mutual
 /-- `RenderHtml::to_html_with_buf` (what it appends to `buf`) -/
 def html (esc : Bool) : View → Position → Str
@@ -156,7 +163,7 @@ def html (esc : Bool) : View → Position → Str
   | .elem tag as c, _ =>
     '<' :: tag.toList ++ Html.attrsHtml (attrsOf as) ++ '>' ::
       (if isVoidT tag then []
-       else (if viewExists c then html (escKids tag) c .firstChild else []) ++ '<' :: '/' :: tag.toList ++ ['>'])
+       else (if viewExists c then kidsBody tag (html (escKids tag) c .firstChild) else []) ++ '<' :: '/' :: tag.toList ++ ['>'])
   | .tuple vs, pos => htmlL esc vs pos
   | .onone, _ => if esc then marker else []
   | .osome v, pos => html esc v pos
@@ -871,6 +878,22 @@ end
 
 def suspFut (f : Nat) : Stream.Fut := { deps := [f], tick := false }
 
+def isSyncOp : Stream.Op → Bool
+  | .sync _ => true
+  | _ => false
+
+/-- what a run of `push_sync`s leaves in `sync_buf` -/
+def syncCat : List Stream.Op → Str
+  | [] => []
+  | .sync s :: r => s ++ syncCat r
+  | _ :: r => syncCat r
+
+/-- `HtmlElement::to_html_async_with_buf` after the children: for `<textarea>`, "if the children did not push any
+asynchronous chunk, everything they wrote is still at the end of the synchronous buffer" and is replaced by its
+escaped form (`kidsBody`); otherwise nothing changes -/
+def kidsOps (tag : String) (ops : List Stream.Op) : List Stream.Op :=
+  if tag.toList = Html.tTextarea && ops.all isSyncOp then [.sync (Html.textareaBody true true (syncCat ops))] else ops
+
 mutual
 /-- `RenderHtml::to_html_async_with_buf::<ooo>(buf, position, escape)`: the calls on the `StreamBuilder` and the
     `Position` left behind; `done0` = the futures already completed when the view is rendered -/
@@ -878,7 +901,7 @@ def compile (ooo : Bool) (done0 : List Nat) (esc : Bool) : View → Position →
   | .elem tag as c, _ =>
     (.sync ('<' :: tag.toList ++ Html.attrsHtml (attrsOf as) ++ ['>']) ::
       (if isVoidT tag then []
-       else (if viewExists c then (compile ooo done0 (escKids tag) c .firstChild).1 else []) ++
+       else (if viewExists c then kidsOps tag (compile ooo done0 (escKids tag) c .firstChild).1 else []) ++
             [.sync ('<' :: '/' :: tag.toList ++ ['>'])]),
      .nextChild)
   | .tuple vs, pos => compileL ooo done0 esc vs pos
@@ -910,7 +933,11 @@ end
 mutual
 /-- every guess of a pending `Suspend` about the position it leaves is right -/
 def Agree (ooo : Bool) (done0 : List Nat) (esc : Bool) : View → Position → Bool
-  | .elem tag _ c, _ => isVoidT tag || !viewExists c || Agree ooo done0 (escKids tag) c .firstChild
+  | .elem tag _ c, _ =>
+    isVoidT tag || !viewExists c ||
+      (Agree ooo done0 (escKids tag) c .firstChild &&
+        -- a `<textarea>` whose children suspend is streamed unescaped
+        (tag.toList != Html.tTextarea || (compile ooo done0 (escKids tag) c .firstChild).1.all isSyncOp))
   | .tuple vs, pos => AgreeL ooo done0 esc vs pos
   | .osome v, pos => Agree ooo done0 esc v pos
   | .either _ _ v, pos => Agree ooo done0 esc v pos
